@@ -221,6 +221,7 @@ func (c *Ctx) resetPath(p []int) {
 	c.exts, c.sched, c.bigs, c.eqMemo, c.srcMemo = nil, nil, nil, nil, nil
 	c.freshSeq = 0
 	c.numMemo = nil
+	c.syncMaps = nil
 	c.kf = nil
 	c.viols = nil
 	c.incomplete = nil
